@@ -468,6 +468,78 @@ def run(tier, seed):
     for ti, _, _ in rej[:5]:
         chk.violation('random rule %r: recorded match set rejected by Router.tla' % (descr[ti],),
                       dict(kind='code->spec', module='c12', rule=repr(descr[ti])))
+    # ---- values that need care in the rule TEXT: apostrophes, commas, equal signs (the grammar of match rules: a value
+    # stands in single quotes, an apostrophe inside it is written '\\''); the text must say what the local rule says, and
+    # the built-in bus must read it back to the same constraint.  Exact-argument semantics as in Router.tla, instantiated
+    # with these strings
+    def spec_parse(text):
+        out, i, n = set(), 0, len(text)
+        while i < n:
+            if text[i] == ',':
+                i += 1
+                continue
+            eq = text.index('=', i)
+            key, i, val = text[i:eq], eq + 1, []
+            while i < n and text[i] != ',':
+                if text[i] == "'":
+                    j = text.index("'", i + 1)
+                    val.append(text[i + 1:j])
+                    i = j + 1
+                elif text[i] == '\\' and text[i + 1:i + 2] == "'":
+                    val.append("'")
+                    i += 2
+                else:
+                    val.append(text[i])
+                    i += 1
+            out.add((key, ''.join(val)))
+        return out
+    awkward = ["it's", "a,b", "a=b", "x',member='Other", "''", "q,type='signal'"]
+    conn_a, ct_a, _ = fakes.ready_client()
+    bus_a = txdbus.bus.Bus()
+
+    class Pa:
+        uniqueName = ':1.1'
+
+        def __init__(self):
+            self.got = []
+            self.matchRules = set()
+
+        def sendMessage(self, m):
+            self.got.append(m)
+    for val in awkward:
+        hits_a = []
+        d = conn_a.addMatch(hits_a.append, mtype='signal', interface='I1.x', arg=[(0, val)])
+        calls = fakes.parse_all(ct_a.take())
+        text = calls[0].body[0] if calls and calls[0].member == 'AddMatch' else ''
+        conn_a.dataReceived(message.MethodReturnMessage(calls[0].serial, destination=':1.7').rawMessage)
+        want_text = {('type', 'signal'), ('interface', 'I1.x'), ('arg0', val)}
+        try:
+            got_text = spec_parse(text)
+        except ValueError:
+            got_text = {('unparsable', text)}
+        chk.traces += 1
+        if got_text != want_text:
+            chk.violation('client.addMatch with the argument value %r: the rule text %r says %r' % (val, text, sorted(got_text)),
+                          dict(kind='rule text', module='c12', value=val, text=text))
+            continue
+        # what the built-in bus makes of that (correct) text: only the signal whose argument 0 IS the value
+        pa = Pa()
+        bus_a.clients[':1.1'] = pa
+        try:
+            bus_a.dbus_AddMatch(text, dbusCaller=':1.1')
+            delivered = []
+            for other in awkward + ['plain']:
+                del pa.got[:]
+                sgn = message.parseMessage(message.SignalMessage('/p', 'M1', 'I1.x', signature='s', body=[other]).rawMessage, [])
+                bus_a.router.routeMessage(sgn)
+                if pa.got:
+                    delivered.append(other)
+            bus_a.dbus_RemoveMatch(text, dbusCaller=':1.1')
+        except Exception as ex:
+            delivered = ['raised %s' % type(ex).__name__]
+        if delivered != [val]:
+            chk.violation('Bus.dbus_AddMatch(%r): signals with argument 0 in %r are delivered, the rule asks for %r' % (text, delivered, val),
+                          dict(kind='rule text (bus)', module='c12', value=val, text=text, delivered=delivered))
     # ---- proxy subscription: arguments are passed only when the signature is the declared one
     ptr = []
     for decl, actual in itertools.product(['s', 'i', '', 'ss'], repeat=2):
